@@ -259,9 +259,9 @@ void cc_dynamic_pool_free(void *ptr, CC_DynamicPool *pool)
 size_t cc_dynamic_pool_used_bytes(CC_DynamicPool *pool)
 {
     size_t total = pool->free_ptr - pool->low_ptr;
-    PageInfo* pi = (PageInfo*)pool->page;
+    PageInfo* pi = ((PageInfo*)pool->page)->previous;
 
-    while (pi->previous) {
+    while (pi) {
         total += pi->size;
         pi     = pi->previous;
     }
